@@ -180,6 +180,8 @@ class Folder:
         self.ctors = {"Gate": make_gate}
         if ctors:
             self.ctors.update(ctors)
+            for k in [k for k, v in self.ctors.items() if v is None]:
+                del self.ctors[k]                   # ctors={"Gate": None}: fold the repository's own class instead of the record shortcut
         self.opaque_unknown = opaque_unknown
         self.isinstance_hook = isinstance_hook
 
@@ -234,6 +236,12 @@ class Folder:
                 cur[:] = cur * v
                 self.assign(s.target, cur)
                 return
+            names = self._DUNDER.get(type(s.op))
+            if names:
+                im = self._rec_method(cur, "__i" + names[0][2:])
+                if im is not None:
+                    self.assign(s.target, self.call_funcval(im, [v], {}))
+                    return
             self.assign(s.target, self.binop(s.op, cur, v, s))
             return
         if isinstance(s, ast.If):
@@ -248,6 +256,8 @@ class Folder:
                 it = list(it.keys())
             if isinstance(it, (type({}.keys()), IntArray)) or (getattr(it, "_sa_model", False) and hasattr(it, "__iter__")):
                 it = list(it)
+            if self._rec_method(it, "__iter__") is not None:
+                it = list(self.call_funcval(self._rec_method(it, "__iter__"), [], {}))
             if not isinstance(it, (list, tuple, str, range)):
                 raise Undecidable(f"loop over {norm(s.iter)}")
             broke = False
@@ -539,6 +549,8 @@ class Folder:
                 it = sorted(it, key=repr)
             if isinstance(it, dict):
                 it = list(it.keys())
+            if self._rec_method(it, "__iter__") is not None:
+                it = list(self.call_funcval(self._rec_method(it, "__iter__"), [], {}))
             for x in list(it):
                 self.assign(g.target, x)
                 if all(self.truth(self.expr(c), c) for c in g.ifs):
@@ -551,7 +563,24 @@ class Folder:
             return frozenset(results)
         return results
 
+    _DUNDER = {ast.Add: ("__add__", "__radd__"), ast.Sub: ("__sub__", "__rsub__"), ast.Mult: ("__mul__", "__rmul__"), ast.Div: ("__truediv__", "__rtruediv__"),
+               ast.MatMult: ("__matmul__", "__rmatmul__"), ast.Pow: ("__pow__", "__rpow__"), ast.BitAnd: ("__and__", "__rand__"), ast.BitOr: ("__or__", "__ror__")}
+
+    def _rec_method(self, obj, name):
+        cv = getattr(obj, "cls_val", None) if isinstance(obj, Rec) else None
+        if cv is not None and name in cv.methods:
+            return FuncVal(cv.methods[name], closure=None, bound_self=obj, home=(cv.method_home or {}).get(name, cv.home))
+        return None
+
     def binop(self, op, a, b, node):
+        names = self._DUNDER.get(type(op))
+        if names:
+            m = self._rec_method(a, names[0])
+            if m is not None:
+                return self.call_funcval(m, [b], {})
+            m = self._rec_method(b, names[1])
+            if m is not None:
+                return self.call_funcval(m, [a], {})
         if isinstance(a, complex) and isinstance(b, sp.Basic):
             a = sp.nsimplify(a.real) + sp.I * sp.nsimplify(a.imag)
         if isinstance(b, complex) and isinstance(a, sp.Basic):
@@ -714,6 +743,15 @@ class Folder:
                 kwargs[k.arg] = self.expr(k.value)
         if fn in self.ctors:
             return self.ctors[fn](args, kwargs)
+        if fn in ("list", "tuple", "enumerate", "sorted", "reversed", "len", "iter", "zip", "set", "sum", "max", "min", "any", "all"):
+            # an instance of a folded repository class that defines __iter__ / __len__ goes through those
+            def _conv(a):
+                if fn == "len" and self._rec_method(a, "__len__") is not None:
+                    return [None] * int(self.call_funcval(self._rec_method(a, "__len__"), [], {}))
+                if self._rec_method(a, "__iter__") is not None:
+                    return list(self.call_funcval(self._rec_method(a, "__iter__"), [], {}))
+                return a
+            args = [_conv(a) for a in args]
         if fn in ("Counter", "collections.Counter"):
             import collections
             return collections.Counter(*args, **kwargs)
@@ -922,11 +960,26 @@ class Folder:
                     return getattr(obj, m)(*args)          # a mutable set handed in by the checker
                 except KeyError:
                     raise Raised("KeyError", e)
-            if isinstance(obj, frozenset) and m in ("add", "update", "discard") and not kwargs and isinstance(e.func.value, ast.Name):
-                # sets are folded as immutable values: an in-place update rebinds the variable
+            if isinstance(obj, frozenset) and m in ("add", "update", "discard", "remove") and not kwargs and isinstance(e.func.value, (ast.Name, ast.Attribute, ast.Subscript)):
+                # sets are folded as immutable values: an in-place update rebinds the variable / field / slot it was read from
+                # (aliases of the same set through another name do not see the update - the folded functions do not rely on that)
+                if m == "remove" and args[0] not in obj:
+                    raise Raised("KeyError", e)
                 new = obj | frozenset(args[0]) if m == "update" else (obj | {args[0]} if m == "add" else obj - {args[0]})
-                self.env[e.func.value.id] = new
+                self.assign(e.func.value, new)
                 return None
+            if isinstance(obj, list) and m in ("remove", "pop", "insert", "index", "sort", "reverse", "copy", "count", "clear") and set(kwargs) <= {"key", "reverse"}:
+                if m == "sort" and isinstance(kwargs.get("key"), FuncVal):
+                    keyed = [(self.call_funcval(kwargs["key"], [x], {}), x) for x in obj]
+                    order = sorted(range(len(obj)), key=lambda i: keyed[i][0], reverse=bool(kwargs.get("reverse", False)))
+                    obj[:] = [obj[i] for i in order]
+                    return None
+                try:
+                    return getattr(obj, m)(*args, **kwargs)
+                except (ValueError, IndexError) as ex:
+                    raise Raised(type(ex).__name__, e)
+                except TypeError as ex:
+                    raise Undecidable(f"list.{m}: {ex}")
         fv = None
         try:
             fv = self.expr(e.func)
